@@ -419,5 +419,10 @@ LEVEL_NOTE = ("Partial: 'keeps its state (RIB contents, sessions)' is not modell
               "C13-vrib-query-todo: a vRIB asked about a stored prefix never answers); the `bgpend` engine shows established BGP sessions of a "
               "reconfigured bgp-tcp-in unit every kind of reconfiguration: only those that change the main settings or the session's own peer entry "
               "reset it (C13_bgp_spared_reconfigurations_invisible). "
+              "The `e2e` profile also takes an INGRESS unit out of the configuration and puts it back (a second bmp-tcp-in unit stays): the removal is exactly the "
+              "withdrawal of the removed unit's sessions in every RIB unit that lives through the reload (C13_removed_unit_withdraws_its_routes, "
+              "C13_removal_spares_other_ingresses, C13_removal_is_one_bulk_withdrawal), its router list goes with it, the unit that comes back is a new parent whose "
+              "routers are new sources (C13_added_unit_is_a_new_parent, C13_router_of_added_unit_is_a_new_source); defect found and fixed: the RIB unit unsubscribed "
+              "from a terminated source before that source had sent its withdrawals (C13-removal-unsubscribes-first, C13_legacy_removal_leaves_routes_refuted). "
               "Trusted: Coq kernel, ExtrOcamlBasic extraction + OCaml driver, Rust harness (TOML rendering, Debug-based read-out) and generators.")
 TECHNIQUE = "Coq proof over load histories (closed form of one reload + induction) + model/implementation correspondence"
